@@ -975,7 +975,7 @@ where
         use crate::internals::hash_dual::algorithms::update_rle_block;
         let mut fuzzy = Self::new();
         hash_from_bytes_with_last_index_internal_template! {
-            str, index, true,
+            str, index, true, true,
             fuzzy.norm_hash.log_blocksize,
             { let mut  rle_offset = 0; },
             #[inline(always)] |pos, len| rle_offset = update_rle_block(
